@@ -94,7 +94,7 @@ Init == /\ l = 1
 Step == /\ l <= Len(Trace)
         /\ LET e == Trace[l]
                x == Expect(e)
-               new == Fails(e, x) \o GroupFails(e) \o SuiteFails(e) \o HexFieldFails(e) \o URLFails(e) \o FrameFails(e) \o LeakFails(e) \o RandFails(e) \o ConcFails(e)
+               new == Fails(e, x) \o GroupFails(e) \o AdmitFails(e) \o SuiteFails(e) \o HexFieldFails(e) \o URLFails(e) \o FrameFails(e) \o LeakFails(e) \o RandFails(e) \o ConcFails(e)
            IN  /\ bad' = IF Len(bad) < MaxBad THEN bad \o new ELSE bad
                /\ nbad' = Bump(nbad, new)
                /\ cnt' = [cnt EXCEPT ![x.class] = @ + 1]
